@@ -529,3 +529,220 @@ Proof.
   - intros f'. apply drop_replace_abs.
   - cbn. rewrite w_cleanup_abs. reflexivity.
 Qed.
+
+(* ---------------------------------------------------------------- removeDups *)
+
+Definition somes (l : list (option lid)) : list lid :=
+  flat_map (fun o => match o with Some i => [i] | None => [] end) l.
+
+Lemma somes_app a b : somes (a ++ b) = somes a ++ somes b.
+Proof. unfold somes. apply flat_map_app. Qed.
+
+Lemma in_somes i l : In i (somes l) <-> In (Some i) l.
+Proof.
+  unfold somes. rewrite in_flat_map. split.
+  - intros [o [Ho Hi]]. destruct o; cbn in Hi; [destruct Hi as [->|[]]; exact Ho | destruct Hi].
+  - intros H. exists (Some i). split; [exact H | left; reflexivity].
+Qed.
+
+Lemma opt_lid_eqb_eq a b : opt_lid_eqb a b = true <-> a = b.
+Proof.
+  destruct a, b; cbn; split; try congruence; try discriminate.
+  - intros H. apply Nat.eqb_eq in H. congruence.
+  - intros [= ->]. apply Nat.eqb_refl.
+Qed.
+
+Lemma killed_In K o : killed K o = true <-> In o K.
+Proof.
+  unfold killed. rewrite existsb_exists. split.
+  - intros [x [Hx He]]. apply opt_lid_eqb_eq in He. subst. exact Hx.
+  - intros H. exists o. split; [exact H | apply opt_lid_eqb_eq; reflexivity].
+Qed.
+
+Section Dedup.
+  Context {E K : Type} (same : E -> E -> bool) (syn : E -> option lid)
+          (live : E -> bool) (proj : E -> K) (ksame : K -> K -> bool).
+  Hypothesis same_live : forall x y, live x = true -> live y = true -> same x y = ksame (proj x) (proj y).
+  Hypothesis same_dead : forall x y, live x = true -> live y = false -> same x y = false.
+
+  Lemma dups_in o seen l kill : In o (dups same syn seen l kill) -> In o kill \/ In o (map syn l).
+  Proof.
+    revert seen kill. induction l as [|x r IH]; intros seen kill H; cbn in *; [tauto|].
+    destruct (existsb (same x) seen); apply IH in H; cbn in H; tauto.
+  Qed.
+
+  Lemma dups_incl o seen l kill : In o kill -> In o (dups same syn seen l kill).
+  Proof.
+    revert seen kill. induction l as [|x r IH]; intros seen kill H; cbn; [exact H|].
+    destruct (existsb (same x) seen); apply IH; cbn; tauto.
+  Qed.
+
+  Lemma existsb_same x seen :
+    live x = true ->
+    existsb (same x) seen = existsb (ksame (proj x)) (map proj (filter live seen)).
+  Proof.
+    intros Hx. induction seen as [|y r IH]; cbn; [reflexivity|].
+    destruct (live y) eqn:Hy; cbn.
+    - rewrite (same_live x y Hx Hy), IH. reflexivity.
+    - rewrite (same_dead x y Hx Hy), IH. reflexivity.
+  Qed.
+
+  Lemma dedup_abs l : forall seen K0,
+    NoDup (somes (map syn l)) ->
+    (forall x, In x l -> live x = true -> syn x <> None) ->
+    (forall i, In (Some i) K0 -> ~ In (Some i) (map syn l)) ->
+    map proj (filter live (filter (fun x => negb (killed (dups same syn seen l K0) (syn x))) l))
+    = keep_first ksame (map proj (filter live seen)) (map proj (filter live l)).
+  Proof.
+    induction l as [|x r IH]; intros seen K0 Hnd Hlive HK0; [reflexivity|].
+    cbn [map somes flat_map] in Hnd.
+    assert (Hnd_r : NoDup (somes (map syn r))).
+    { destruct (syn x); cbn in Hnd; [inversion Hnd; assumption | exact Hnd]. }
+    assert (Hx_r : forall i, syn x = Some i -> ~ In (Some i) (map syn r)).
+    { intros i Hi Hin. rewrite Hi in Hnd. cbn in Hnd. inversion Hnd as [|? ? Hni _]; subst.
+      apply Hni. apply in_somes. exact Hin. }
+    assert (Hlive_r : forall y, In y r -> live y = true -> syn y <> None).
+    { intros y Hy. apply Hlive. right. exact Hy. }
+    cbn [dups].
+    destruct (live x) eqn:Hlx.
+    - destruct (syn x) as [i|] eqn:Hsx; [|exfalso; eapply Hlive; [left; reflexivity | exact Hlx | exact Hsx]].
+      assert (Hrhs : map proj (filter live (x :: r)) = proj x :: map proj (filter live r)).
+      { cbn [filter]. rewrite Hlx. reflexivity. }
+      rewrite Hrhs. cbn [keep_first].
+      rewrite <- (existsb_same x seen Hlx).
+      destruct (existsb (same x) seen) eqn:Hd.
+      + assert (Hk : killed (dups same syn seen r (Some i :: K0)) (Some i) = true).
+        { apply killed_In. apply dups_incl. left. reflexivity. }
+        cbn [filter]. rewrite Hsx, Hk. cbn [negb].
+        apply IH; [exact Hnd_r | exact Hlive_r |].
+        intros j [Hj|Hj]; [injection Hj as <-; apply Hx_r; reflexivity |].
+        intros Hin. apply (HK0 j Hj). right. exact Hin.
+      + assert (Hk : killed (dups same syn (x :: seen) r K0) (Some i) = false).
+        { destruct (killed _ _) eqn:Hk; [|reflexivity]. apply killed_In in Hk. apply dups_in in Hk.
+          destruct Hk as [Hk|Hk]; [exfalso; apply (HK0 i Hk); left; exact Hsx | exfalso; eapply Hx_r; eauto]. }
+        cbn [filter]. rewrite Hsx, Hk. cbn [negb filter]. rewrite Hlx. cbn [map]. f_equal.
+        rewrite (IH (x :: seen) K0 Hnd_r Hlive_r).
+        * cbn [filter]. rewrite Hlx. reflexivity.
+        * intros j Hj Hin. apply (HK0 j Hj). right. exact Hin.
+    - (* a cleared entry is invisible whatever happens to it *)
+      assert (Hdrop : forall Kf, map proj (filter live (filter (fun y => negb (killed Kf (syn y))) (x :: r)))
+                               = map proj (filter live (filter (fun y => negb (killed Kf (syn y))) r))).
+      { intros Kf. cbn [filter]. destruct (negb _); [cbn [filter]; rewrite Hlx|]; reflexivity. }
+      rewrite Hdrop.
+      assert (Hrhs : map proj (filter live (x :: r)) = map proj (filter live r)).
+      { cbn [filter]. rewrite Hlx. reflexivity. }
+      rewrite Hrhs.
+      destruct (existsb (same x) seen).
+      + apply IH; [exact Hnd_r | exact Hlive_r |].
+        intros j [Hj|Hj]; [apply Hx_r; exact Hj |].
+        intros Hin. apply (HK0 j Hj). right. exact Hin.
+      + rewrite (IH (x :: seen) K0 Hnd_r Hlive_r).
+        * cbn [filter]. rewrite Hlx. reflexivity.
+        * intros j Hj Hin. apply (HK0 j Hj). right. exact Hin.
+  Qed.
+End Dedup.
+
+Lemma filter_rev' {A} (p : A -> bool) l : filter p (rev l) = rev (filter p l).
+Proof.
+  induction l as [|x r IH]; cbn; [reflexivity|].
+  rewrite filter_app, IH. cbn. destruct (p x); cbn; [reflexivity | apply app_nil_r].
+Qed.
+
+Lemma NoDup_app_l {A} (a b : list A) : NoDup (a ++ b) -> NoDup a.
+Proof. induction a as [|x a IH]; cbn; intros H; [constructor|]. inversion H; subst. constructor; [rewrite in_app_iff in *; tauto | auto]. Qed.
+Lemma NoDup_app_r {A} (a b : list A) : NoDup (a ++ b) -> NoDup b.
+Proof. induction a as [|x a IH]; cbn; intros H; [exact H|]. inversion H; subst. auto. Qed.
+Lemma NoDup_app_disj {A} (a b : list A) x : NoDup (a ++ b) -> In x a -> In x b -> False.
+Proof.
+  induction a as [|y a IH]; cbn; intros H Ha Hb; [destruct Ha|].
+  inversion H; subst. destruct Ha as [->|Ha]; [apply H2; apply in_app_iff; tauto | eauto].
+Qed.
+
+Lemma rev_inj {A} (a b : list A) : rev a = rev b -> a = b.
+Proof. intros H. rewrite <- (rev_involutive a), <- (rev_involutive b), H. reflexivity. Qed.
+
+Lemma somes_rev l : somes (rev l) = rev (somes l).
+Proof.
+  induction l as [|o r IH]; cbn; [reflexivity|].
+  rewrite somes_app, IH. cbn. destruct o; cbn; [|rewrite app_nil_r; reflexivity].
+  reflexivity.
+Qed.
+
+(* the hypotheses removeDups needs: live entries have a line, lines are not shared *)
+Record DedupWf (f : file) : Prop := {
+  dw_ex : forall x, In x (f_exclude f) -> nonempty (ex_path x) = true -> ex_syn x <> None;
+  dw_rp : forall x, In x (f_replace f) -> nonempty (rp_op x) = true -> rp_syn x <> None;
+  dw_tl : forall x, In x (f_tool f) -> nonempty (tl_path x) = true -> tl_syn x <> None;
+  dw_nodup : NoDup (somes (map ex_syn (f_exclude f)) ++ somes (map rp_syn (f_replace f)) ++ somes (map tl_syn (f_tool f)))
+}.
+
+Lemma remove_dups_abs f mod_ : DedupWf f -> abs (remove_dups f mod_) = kdedup mod_ (abs f).
+Proof.
+  intros [Hex Hrp Htl Hnd].
+  pose proof (NoDup_app_l _ _ Hnd) as Hnd_ex.
+  pose proof (NoDup_app_r _ _ Hnd) as Hnd_rt.
+  pose proof (NoDup_app_l _ _ Hnd_rt) as Hnd_rp.
+  pose proof (NoDup_app_r _ _ Hnd_rt) as Hnd_tl.
+  set (k1 := if mod_ then dups same_exclude ex_syn [] (f_exclude f) [] else []).
+  set (k2 := dups same_replace_old rp_syn [] (rev (f_replace f)) k1).
+  assert (Hk1 : forall i, In (Some i) k1 -> In i (somes (map ex_syn (f_exclude f)))).
+  { intros i Hi. unfold k1 in Hi. destruct mod_; [|destruct Hi].
+    apply dups_in in Hi. destruct Hi as [[]|Hi]. apply in_somes. exact Hi. }
+  assert (Hk2 : forall i, In (Some i) k2 ->
+            In i (somes (map ex_syn (f_exclude f))) \/ In i (somes (map rp_syn (f_replace f)))).
+  { intros i Hi. unfold k2 in Hi. apply dups_in in Hi. destruct Hi as [Hi|Hi]; [left; auto|].
+    right. apply in_somes. rewrite map_rev in Hi. apply in_rev in Hi. exact Hi. }
+  (* exclude *)
+  assert (Hexcl : map (fun x => (ex_path x, ex_vers x))
+                    (filter (fun x => nonempty (ex_path x))
+                       (filter (fun x => negb (killed (dups same_exclude ex_syn [] (f_exclude f) []) (ex_syn x))) (f_exclude f)))
+                  = keep_first pair_eqb [] (k_exclude (abs f))).
+  { apply (dedup_abs same_exclude ex_syn (fun x => nonempty (ex_path x)) (fun x => (ex_path x, ex_vers x)) pair_eqb).
+    - intros x y _ _. reflexivity.
+    - intros x y Hx Hy. unfold same_exclude. destruct (ex_path y); [|discriminate].
+      destruct (ex_path x); [discriminate | reflexivity].
+    - exact Hnd_ex.
+    - exact Hex.
+    - intros i []. }
+  (* replace *)
+  assert (Hrepl : map (fun r => (rp_op r, rp_ov r, rp_np r, rp_nv r))
+                    (filter (fun r => nonempty (rp_op r))
+                       (filter (fun x => negb (killed k2 (rp_syn x))) (f_replace f)))
+                  = keep_last rep_old_eqb (k_replace (abs f))).
+  { unfold keep_last. apply rev_inj. rewrite rev_involutive.
+    rewrite <- map_rev, <- !filter_rev'.
+    unfold abs; cbn [k_replace]. rewrite <- map_rev, <- filter_rev'.
+    apply (dedup_abs same_replace_old rp_syn (fun r => nonempty (rp_op r))
+             (fun r => (rp_op r, rp_ov r, rp_np r, rp_nv r)) rep_old_eqb).
+    - intros x y _ _. reflexivity.
+    - intros x y Hx Hy. unfold same_replace_old. destruct (rp_op y); [|discriminate].
+      destruct (rp_op x); [discriminate | reflexivity].
+    - rewrite map_rev, somes_rev. apply NoDup_rev. exact Hnd_rp.
+    - intros x Hx. apply Hrp. apply in_rev. exact Hx.
+    - intros i Hi Hin. apply Hk1 in Hi. rewrite map_rev in Hin. apply in_rev in Hin.
+      apply in_somes in Hin. eapply (NoDup_app_disj _ _ i Hnd); [exact Hi | apply in_app_iff; left; exact Hin]. }
+  (* tool *)
+  assert (Htool : map tl_path
+                    (filter (fun t => nonempty (tl_path t))
+                       (filter (fun x => negb (killed (dups same_tool tl_syn [] (f_tool f) k2) (tl_syn x))) (f_tool f)))
+                  = keep_first str_eqb [] (k_tool (abs f))).
+  { apply (dedup_abs same_tool tl_syn (fun t => nonempty (tl_path t)) tl_path str_eqb).
+    - intros x y _ _. reflexivity.
+    - intros x y Hx Hy. unfold same_tool. destruct (tl_path y); [|discriminate].
+      destruct (tl_path x); [discriminate | reflexivity].
+    - exact Hnd_tl.
+    - exact Htl.
+    - intros i Hi Hin. apply in_somes in Hin. apply Hk2 in Hi. destruct Hi as [Hi|Hi].
+      + eapply (NoDup_app_disj _ _ i Hnd); [exact Hi | apply in_app_iff; right; exact Hin].
+      + eapply (NoDup_app_disj _ _ i Hnd_rt); [exact Hi | exact Hin]. }
+  unfold remove_dups. fold k1. fold k2.
+  destruct mod_.
+  - unfold abs at 1; cbn. unfold k1 in *. rewrite Hexcl, Hrepl, Htool. reflexivity.
+  - unfold abs at 1; cbn. rewrite Hrepl. reflexivity.
+Qed.
+
+Lemma sort_blocks_abs f : DedupWf f -> abs (sort_blocks f) = kdedup true (abs f).
+Proof. intros H. rewrite <- (remove_dups_abs f true H). reflexivity. Qed.
+
+Lemma w_sort_blocks_abs f : DedupWf f -> abs (w_sort_blocks f) = kdedup false (abs f).
+Proof. intros H. rewrite <- (remove_dups_abs f false H). reflexivity. Qed.
